@@ -38,9 +38,10 @@ Definition K := Build_link.
 Definition S := Build_start_opts.
 
 Inductive case :=
-(* a whole span: limits, Start options, initial name, calls; what the exporter received and
+(* a whole span: limits, Start options, initial name, calls (the harness's own final End included);
+   everything the exporter received (a list: exactly one span is expected), then what the exporter received and
    what the ended span's own accessors return after all calls *)
-| CSpan (lim : limits) (so : start_opts) (name0 : bytes) (ops : list op) (exported readback : export)
+| CSpan (lim : limits) (so : start_opts) (name0 : bytes) (ops : list op) (exported : list export) (readback : export)
 (* one string attribute value under a value-length limit *)
 | CTrunc (limit : Z) (s out : bytes).
 
@@ -51,8 +52,8 @@ Definition check_case (c : case) : list N :=
   | CSpan lim so name0 ops exported readback =>
       let st := run_model lim so name0 ops in
       let sp := run_spec lim so name0 ops in
-      flag (export_eqb (snapshot st) exported && export_eqb (live st) readback) V_MISMATCH ++
-      flag (export_eqb sp exported && export_eqb sp readback) V_SPECFAIL ++
+      flag (list_eqb export_eqb (m_exported st) exported && export_eqb (live st) readback) V_MISMATCH ++
+      flag (list_eqb export_eqb (exports_spec lim so name0 ops) exported && export_eqb sp readback) V_SPECFAIL ++
       flag (export_eqb sp (live st)) V_MODELSPEC
   | CTrunc limit s out =>
       flag (bytes_eqb (truncate limit s) out) V_MISMATCH ++
